@@ -16,6 +16,8 @@ CONSTANTS
   DerivedByIdentity = TRUE
   GuessEachTime = TRUE
   CountLive = TRUE
+  LabelLive = TRUE
+  PayloadLive = TRUE
 VIEW noHist
 INVARIANT HistoryIndependent
 INVARIANT NoStaleCount
